@@ -110,15 +110,16 @@ structure Landed where
   /-- a `required` pointer to a struct without gozod tags must be non-nil -/
   reqUntagged : Bool
 
-/-- the fixes /repo HEAD carries -/
+/-- the fixes /repo HEAD carries: all seven landed (9a4a316, bf27a94, df49b33, d8f36d1, 73aac3b, ec7d81c, 6071bfe); the flags are
+    pinned here by hand — nothing probes the tree to set them, so a regression of a landed fix is a violation -/
 def landed : Landed where
-  numeric := false
-  nonneg := false
-  strings := false
-  collections := false
-  ptrNil := false
-  ptrContainers := false
-  reqUntagged := false
+  numeric := true
+  nonneg := true
+  strings := true
+  collections := true
+  ptrNil := true
+  ptrContainers := true
+  reqUntagged := true
 
 /-- KNOWN FINDINGS, single rule: the (rule, field type) cells where the schema built by FromStruct
     does not behave as documented on some boundary value. -/
